@@ -587,6 +587,12 @@ func verifC10Sys(id string, seed int64) *verifSys {
 		if smp == "refresh" {
 			m.NRefresh, m.NKey, m.NEnd = 1, 0, 0
 		}
+		if smp == "hitags" {
+			// boundary values of the randomness source for the 4-byte instance tags: the largest tag and the smallest
+			// one with the top bit set (they appear in hexadecimal in every fragment header)
+			w.P[0].R.Script = append(w.P[0].R.Script, []byte{0xff, 0xff, 0xff, 0xff})
+			w.P[1].R.Script = append(w.P[1].R.Script, []byte{0x80, 0x00, 0x00, 0x00})
+		}
 		if smp == "tiny" {
 			// boundary values of the randomness source: tiny D-H exponents, so that public keys and shared secrets
 			// are short integers (2^(x*y)): 1 byte, 191 bytes (one leading zero byte in the group's width), exactly
@@ -734,6 +740,7 @@ type monC10b struct {
 	Budget   [2]int
 	NKey     [2]int
 	NEnd     int
+	RefEnded bool // the reference has ended a session the conversation was in
 	Started  bool
 	RealKeys [][]byte
 }
@@ -751,12 +758,18 @@ func verifC10bSys(id string, seed int64) *verifSys {
 	fmt.Sscanf(parts[1], "v%d", &v)
 	fmt.Sscanf(parts[3], "f%d", &frag)
 	fmt.Sscanf(parts[4], "S%d", &sends)
-	refInit := parts[2] == "refinit"
+	refInit := strings.HasPrefix(parts[2], "refinit")
+	padFirst := strings.HasSuffix(parts[2], "+pad") // the reference puts a padding TLV in front of its other TLVs
+	hiFrag := strings.HasSuffix(parts[2], "+hifrag") // both instance tags have the top bit set and the reference fragments what it sends
 	sys := &verifSys{Prop: "C10", ID: id, Seed: seed}
 	sys.Init = func() *verifWorld {
 		real := verifNewPrincipal(verifConvCfg{Name: "real", Seed: seed, Policies: verifPolFor(v), Key: verifKey(seed, "A"), FragSize: frag})
 		rr := verifNewDRBG(seed, "reference-peer")
-		rp := &ref.Peer{Version: uint16(v), Rand: rr, Priv: c10DSA(verifKey(seed, "B")), Tag: 0x5eed0100}
+		rp := &ref.Peer{Version: uint16(v), Rand: rr, Priv: c10DSA(verifKey(seed, "B")), Tag: 0x5eed0100, PadFirst: padFirst}
+		if hiFrag {
+			rp.Tag = 0xfffffff0
+			real.R.Script = append(real.R.Script, []byte{0x80, 0x00, 0x00, 0x00})
+		}
 		w := &verifWorld{P: []*verifPrincipal{real}, Q: make([][][]byte, 1)}
 		w.Mon = &monC10b{Ref: rp, RefRand: rr, Budget: [2]int{sends, sends}, NKey: [2]int{1, 1}, NEnd: 1}
 		return w
@@ -801,7 +814,33 @@ func verifC10bSys(id string, seed int64) *verifSys {
 			fs = append(fs, verifFinding{"C10:peer:" + sig, fmt.Sprintf(format, a...) + " [" + id + "]"})
 		}
 		toRef := func(out [][]byte) { m.QRef = append(m.QRef, out...) }
-		toReal := func(out [][]byte) { w.Q[0] = append(w.Q[0], out...) }
+		toReal := func(out [][]byte) {
+			if !hiFrag {
+				w.Q[0] = append(w.Q[0], out...)
+				return
+			}
+			// the reference cuts its messages into three pieces in the specification's format
+			for _, msg := range out {
+				if !bytes.HasPrefix(msg, []byte("?OTR:")) {
+					w.Q[0] = append(w.Q[0], msg)
+					continue
+				}
+				n := 3
+				l := (len(msg) + n - 1) / n
+				for k := 0; k < n; k++ {
+					lo, hi := k*l, (k+1)*l
+					if hi > len(msg) {
+						hi = len(msg)
+					}
+					piece := msg[lo:hi]
+					if v == 3 {
+						w.Q[0] = append(w.Q[0], []byte(fmt.Sprintf("?OTR|%08x|%08x,%05d,%05d,%s,", m.Ref.Tag, real.C.ourInstanceTag, k+1, n, piece)))
+					} else {
+						w.Q[0] = append(w.Q[0], []byte(fmt.Sprintf("?OTR,%05d,%05d,%s,", k+1, n, piece)))
+					}
+				}
+			}
+		}
 		nlog := len(m.Ref.Log)
 		switch e.K {
 		case "start":
@@ -882,6 +921,7 @@ func verifC10bSys(id string, seed int64) *verifSys {
 			m.Ref.ExtraKeys = append(m.Ref.ExtraKeys, ref.ExtraKey{Usage: 9, Data: []byte("xyz"), Key: key})
 		case "ref-ends":
 			m.NEnd--
+			m.RefEnded = real.C.IsEncrypted()
 			toReal(m.Ref.End())
 		case "real-ends":
 			m.NEnd--
@@ -907,6 +947,9 @@ func verifC10bSys(id string, seed int64) *verifSys {
 	sys.Final = func(w *verifWorld) []verifFinding {
 		m := w.Mon.(*monC10b)
 		var fs []verifFinding
+		if m.RefEnded && w.P[0].C.IsEncrypted() {
+			fs = append(fs, verifFinding{"C10:peer:disconnect-ignored", fmt.Sprintf("the reference ended the session (Disconnected TLV) and at quiescence the conversation is still encrypted [%s]", id)})
+		}
 		if len(m.GotReal) != len(m.SentRef) || len(m.Ref.Received) != len(m.SentReal) {
 			fs = append(fs, verifFinding{"C10:peer:texts-lost", fmt.Sprintf("conversation read %d of %d reference texts, reference read %d of %d [%s]", len(m.GotReal), len(m.SentRef), len(m.Ref.Received), len(m.SentReal), id)})
 		}
@@ -966,11 +1009,11 @@ func init() {
 		Run: func(r *verifReport) {
 			r.Rule = "(a) explicit-state exploration of honest session histories from the query on (one or both sides asking, texts both ways with key rotation, SMP, extra symmetric key, End; fragmented or not; every delivery interleaving): EVERY emitted message is parsed by the independent implementation verifref (standard library only, written from the specification) and re-derived from both sides' secrets, which are found in the logs of the randomness sources by verification (g^d, commitment hash), never by call site: commit hash and ciphertext, D-H key, SSID, c/c', m1/m1', m2/m2', the decrypted signature block (long-term key, key id, DSA signature validity over M), data-message key ids per the specification's ratchet, next D-H key, counter, session keys with the high/low-end rule, MAC, plaintext layout, extra symmetric key, and the whole data message rebuilt byte for byte; every fragment train is labelled 1..n of n with exactly n pieces (also for every fragment size 20..340); every SMP TLV (1, 1Q, 2, 3, 4) is parsed (MPI counts, minimal MPIs), its group elements and D values range-checked, its zero-knowledge proofs verified with the specification's equations, and its values re-derived from the sender's randomness log: g2a, g3a, g2b, g3b as g1^x for logged x, c/D pairs as H(i, g1^r), r - x*c mod q for logged r, Pa/Pb = g3^r4, Qa/Qb = g1^r4 * g2^secret with secret = SHA256(1, initiator fingerprint, responder fingerprint, ssid, user secret), Ra/Rb = (Qa/Qb)^a3/b3, and Rb^a3 = Pa/Pb for equal secrets; (b) a reference peer written from the specification talks to the real conversation in both exchange roles: all interleavings of texts both ways, extra-key requests both ways and End: everything the reference builds must be accepted and read exactly, and vice versa; SSID, fingerprint and extra keys must agree"
 			r.Assumptions = []string{"verifref shares with otr3 only the Go standard library (crypto/dsa, aes, sha, hmac, math/big)", "signature bytes are verified, not re-derived (DSA is randomised)"}
-			idsA := []string{"v3/f0/S2/nosmp", "v2/f0/S1/smp", "v3/f0/S1/smp", "v3/f200/S1/nosmp", "v3/f0/S2/refresh", "v2/f0/S1/refresh", "v3/f0/S2/tiny", "v2/f0/S2/tiny"}
-			idsB := []string{"peer/v3/refinit/f0/S2", "peer/v3/realinit/f0/S1", "peer/v2/refinit/f0/S1", "peer/v2/realinit/f150/S1"}
+			idsA := []string{"v3/f0/S2/nosmp", "v2/f0/S1/smp", "v3/f0/S1/smp", "v3/f200/S1/nosmp", "v3/f0/S2/refresh", "v2/f0/S1/refresh", "v3/f0/S2/tiny", "v2/f0/S2/tiny", "v3/f200/S1/hitags"}
+			idsB := []string{"peer/v3/refinit/f0/S2", "peer/v3/realinit/f0/S1", "peer/v2/refinit/f0/S1", "peer/v2/realinit/f150/S1", "peer/v3/realinit+pad/f0/S1", "peer/v2/refinit+pad/f0/S1", "peer/v3/refinit+hifrag/f0/S1"}
 			if r.Tier == "thorough" {
-				idsA = []string{"v2/f150/S1/smp", "v3/f200/S2/nosmp", "v2/f0/S2/refresh", "v3/f0/S2/refresh", "v2/f0/S2/smp", "v3/f0/S3/nosmp", "v3/f0/S3/tiny", "v2/f0/S3/tiny"}
-				idsB = []string{"peer/v3/refinit/f0/S3", "peer/v3/realinit/f0/S3", "peer/v2/refinit/f0/S3", "peer/v2/realinit/f0/S3", "peer/v3/realinit/f150/S2", "peer/v2/refinit/f150/S2"}
+				idsA = []string{"v2/f150/S1/smp", "v3/f200/S2/nosmp", "v2/f0/S2/refresh", "v3/f0/S2/refresh", "v2/f0/S2/smp", "v3/f0/S3/nosmp", "v3/f0/S3/tiny", "v2/f0/S3/tiny", "v3/f200/S2/hitags", "v3/f0/S2/hitags"}
+				idsB = []string{"peer/v3/refinit/f0/S3", "peer/v3/realinit/f0/S3", "peer/v2/refinit/f0/S3", "peer/v2/realinit/f0/S3", "peer/v3/refinit+pad/f0/S2", "peer/v2/realinit+pad/f0/S2", "peer/v3/realinit+hifrag/f150/S2", "peer/v2/refinit+hifrag/f0/S1", "peer/v3/realinit/f150/S2", "peer/v2/refinit/f150/S2"}
 			}
 			c10FragmentSweep(r)
 			for _, id := range idsB {
